@@ -683,6 +683,34 @@ Proof.
   - eapply Rlt_le_trans; [|apply Hs]; lra.
 Qed.
 
+(* ------------------------------------------------------------------ B = mu0 H for the chain *)
+Lemma poly_sumB_scale mu0 cur o : forall vs, poly_sumB mu0 cur vs o = Rvscale mu0 (poly_sum cur vs o).
+Proof.
+  induction vs as [|v1 tl IH].
+  - unfold poly_sumB, poly_sum. cbn [poly_sumB_gen poly_sum_gen]. unfold_core. apply triple_eq; ring.
+  - destruct tl as [|v2 tl'].
+    + unfold poly_sumB, poly_sum. cbn [poly_sumB_gen poly_sum_gen]. unfold_core. apply triple_eq; ring.
+    + change (poly_sumB mu0 cur (v1 :: v2 :: tl') o)
+        with (Rvadd (polyline_BH NumR FB mu0 o v1 v2 cur) (poly_sumB mu0 cur (v2 :: tl') o)).
+      change (poly_sum cur (v1 :: v2 :: tl') o)
+        with (Rvadd (polyline_H NumR o v1 v2 cur) (poly_sum cur (v2 :: tl') o)).
+      rewrite IH. unfold polyline_BH.
+      destruct (polyline_H NumR o v1 v2 cur) as [[h0 h1] h2].
+      destruct (poly_sum cur (v2 :: tl') o) as [[s0 s1] s2].
+      unfold Rvadd. unfold_core. apply triple_eq; ring.
+Qed.
+
+Theorem closed_polyline_B_source_free mu0 cur vs o d :
+  hd d vs = last vs d -> poly_clear o vs -> source_free_at (poly_sumB mu0 cur vs) o.
+Proof.
+  intros Hclosed Hcl. destruct (poly_sum_jacobian cur o d vs Hcl) as (J & HJ & Hd & Hc).
+  rewrite Hclosed, Rvsub_self in Hc. unfold jcurl in Hc. injection Hc as C0 C1 C2.
+  apply (source_free_of_jacobian _ _ (fun i j => mu0 * J i j)).
+  - apply (jacobian_scale_loc (poly_sum cur vs)); [exact HJ|].
+    intros j Hj. apply filter_forall. intros t. apply poly_sumB_scale.
+  - apply jac_laws_scale. unfold jac_laws. unfold jdiv in Hd. repeat split; assumption.
+Qed.
+
 (* ------------------------------------------------------------------ statements used by Props/C14.v *)
 Lemma polyline_is_seg_H o p1 p2 cur :
   p1 <> p2 ->
